@@ -20,6 +20,12 @@ def apply (w : Word) (b : DS) : Res × DS :=
       let (r, b') := b.put [d]
       if r.isNone then (r, { b' with marker := .ordinal .th, frozen := true }) else (r, b')
     | none => (some .nan, b)
+  | ['e', k] =>   -- a digit that freezes the number without a marker (like German `eins`)
+    match digitOf k with
+    | some d =>
+      let (r, b') := b.put [d]
+      if r.isNone then (r, { b' with frozen := true }) else (r, b')
+    | none => (some .nan, b)
   | ['h'] => b.shift 2
   | ['a', 'n', 'd'] => if !b.isEmpty then (some .incomplete, b) else (some .nan, b)
   | ['c', 'j'] => (some .incomplete, b)   -- unguarded conjunction, not a linking word (German `und`, Dutch `en`)
